@@ -1,0 +1,9 @@
+//go:build verif
+
+package nfdc
+
+// Exec hands a management command to the NFD management goroutine through a channel (outside the
+// verifier's subset). Assumed: it has no effect on the memory of the routing tables.
+//
+//@ func (*NfdMgmtThread).Exec
+//@   trusted
